@@ -101,7 +101,7 @@ func readBlobString(i *bufio.Reader) (m RedisMessage, err error) {
 			if length < 0 {
 				return RedisMessage{}, errors.New(unexpectedNegLen)
 			}
-			sb.Grow(int(length))
+			sb.Grow(int(min(length, maxPrealloc)))
 			if _, err = io.CopyN(&sb, i, length); err != nil {
 				return RedisMessage{}, err
 			}
@@ -159,6 +159,9 @@ func readMap(i *bufio.Reader) (m RedisMessage, err error) {
 	}
 	return m, err
 }
+
+// maxPrealloc caps the memory allocated up front for a declared length.
+const maxPrealloc = 1 << 20
 
 const ok = "OK"
 const okrn = "OK\r\n"
@@ -219,8 +222,15 @@ func readB(i *bufio.Reader) (*byte, int64, error) {
 	if length < 0 {
 		return nil, 0, errors.New(unexpectedNegLen)
 	}
-	bs := make([]byte, length)
-	if _, err = io.ReadFull(i, bs); err != nil {
+	// do not trust the declared length with memory before the payload has arrived
+	bs := make([]byte, min(length, maxPrealloc))
+	_, err = io.ReadFull(i, bs)
+	for err == nil && int64(len(bs)) < length {
+		n := len(bs)
+		bs = append(bs, make([]byte, min(length-int64(n), int64(n)))...)
+		_, err = io.ReadFull(i, bs[n:])
+	}
+	if err != nil {
 		return nil, 0, err
 	}
 	if _, err = i.Discard(2); err != nil {
@@ -244,16 +254,17 @@ func readE(i *bufio.Reader) (*RedisMessage, int64, error) {
 }
 
 func readA(i *bufio.Reader, length int64) (*RedisMessage, int64, error) {
-	var err error
-
 	if length < 0 {
 		return nil, 0, errors.New(unexpectedNegLen)
 	}
-	msgs := make([]RedisMessage, length)
-	for n := range length {
-		if msgs[n], err = readNextMessage(i); err != nil {
+	// do not trust the declared length with memory before the elements have arrived
+	msgs := make([]RedisMessage, 0, min(length, int64(maxPrealloc/messageStructSize)))
+	for range length {
+		msg, err := readNextMessage(i)
+		if err != nil {
 			return nil, 0, err
 		}
+		msgs = append(msgs, msg)
 	}
 	return unsafe.SliceData(msgs), length, nil
 }
